@@ -424,7 +424,7 @@ fn fused_inverse_mul_symbols_no_hdpc<T: BinaryMatrix>(matrix: T, symbols: Symbol
     u.fn('src/decoder.rs', 'rebuild_source_symbol_into', impl='impl SourceBlockDecoder', ret='r', external_body=True,
          requires=['old(dest)@.len() == self.symbol_size as int', 'source_symbol_id < self.source_block_symbols'],
          ensures=['final(dest)@ == rebuilt_spec(self.source_block_symbols as int, *intermediate_symbols, source_symbol_id as int)', 'final(dest)@.len() == old(dest)@.len()'])
-    u.trust('rebuild_source_symbol_into (closure capturing &mut, rejected by Verus): assumed to write Enc[K\', C, Tuple[K\', i]] for params derived from K; bounded Kani stand-in planned')
+    u.trust('rebuild_source_symbol_into: here only its frame (dest keeps its length; result a function of K, the slab and the id) is assumed; that it writes Enc[K\', C, Tuple[K\', i]] is proved on the real body in V-REBUILD (rule I1)')
     STEP_PROOF = ('proof { let esi = payload_id.encoding_symbol_id; }')
     u.fn('src/decoder.rs', 'decode', impl='impl SourceBlockDecoder', rename='decode_step', d5='step', ret='r',
          sig_override='fn decode_step(&mut self, packet: EncodingPacket)',
